@@ -245,6 +245,33 @@ def check_rows(case, ctx, rng):
     S = max(scale(c) for c in cols)
     ok = len(R) == p + 1 and all(abs(a - b) <= 1e-9 * S for rr, qq in zip(R, rows) for r, q in zip(rr, qq) for a, b in zip(r, q))
     ctx.check(ok, 'rows-of-points/reduce-not-inverse', 'reduction of elevated rows != original', what='reduce-inverts')
+    # the input is left as it was and the results share no point objects with it (as for flat polygons)
+    rows_in = copy.deepcopy(rows)
+    Q2 = helpers.degree_elevation(p, rows_in, num=t)
+    R2 = helpers.degree_reduction(p + t, Q2) if p + t >= 2 else []
+    ctx.check(rows_in == rows, 'input-modified', 'degree_elevation modified a polygon of rows of points', what='intact')
+    ids_in = set(id(pt) for row in rows_in for pt in row)
+    ids_q = set(id(pt) for row in Q2 for pt in row)
+    shared = [1 for row in Q2 for pt in row if id(pt) in ids_in] + [1 for row in R2 for pt in row if id(pt) in ids_q]
+    ctx.check(not shared, 'result-aliases-input', 'degree_elevation / degree_reduction on rows of points return %d point objects of their input'
+              % len(shared), what='intact')
+    # rows of rows of points (the control net of a volume in one direction): every point column is a polygon of its own
+    if rng.random() < 0.4:
+        ctx.tag('cls:rows-of-rows')
+        nlay = rng.randint(2, 3)
+        grid = [[[polygon(rng, p, 'cartesian', dim) for _ in range(nlay)] for _ in range(ncol)]]  # grid[0][c][l] = polygon
+        net = [[[grid[0][c][l][i] for l in range(nlay)] for c in range(ncol)] for i in range(p + 1)]
+        try:
+            Q3 = helpers.degree_elevation(p, copy.deepcopy(net), num=t)
+        except Exception as e:
+            ctx.fail('rows-of-points/unsupported', 'degree_elevation on rows of rows of points raised %s: %s' % (type(e).__name__, e))
+            return
+        if ctx.check(len(Q3) == p + 1 + t and all(len(r) == ncol and all(len(x) == nlay for x in r) for r in Q3), 'rows-of-points/size',
+                     'wrong size for rows of rows', what='size'):
+            for c in range(ncol):
+                for l in range(nlay):
+                    same_curve(ctx, grid[0][c][l], [Q3[i][c][l] for i in range(p + 1 + t)], 'elev-identity', 'rows-of-points/curve-changed',
+                               'degree_elevation on rows of rows of points changed column (%d, %d)' % (c, l))
 
 
 def check_reject(case, ctx, rng):
